@@ -213,6 +213,12 @@ func (c *fctx) coerce(n ast.Node, s string, from, to types.Type) string {
 	if in == nil {
 		return s
 	}
+	if fn := derefNamed(from); fn != nil && fn != in && fn.Obj().Pkg() != nil && in.Obj().Pkg() != nil {
+		key := fn.Obj().Pkg().Path() + "." + fn.Obj().Name() + ">" + in.Obj().Pkg().Path() + "." + in.Obj().Name()
+		if f, ok := c.t.extern.Coerce[key]; ok && !c.t.genPkgs[in.Obj().Pkg().Path()] {
+			return "(" + f + " " + s + ")"
+		}
+	}
 	if _, ok := in.Underlying().(*types.Interface); !ok || len(c.t.ifaceImpl[in]) == 0 {
 		return s
 	}
